@@ -267,7 +267,12 @@ class InstrMixin:
             return
         nline = ''.join(line.split())
         for anchor, c in ctx['spec'].asserts_at:
-            if ''.join(anchor.split()) not in nline and self.anchor_text(ctx, anchor) not in nline:
+            a0 = ''.join(anchor.split())
+            if a0.startswith('<call:') and a0.endswith('>'):
+                # before every call whose callee's name contains the text (see do_sets_at)
+                if ins['op'] not in ('Call', 'Defer', 'Go') or a0[6:-1] not in self.callee_label(ctx, ins):
+                    continue
+            elif a0 not in nline and self.anchor_text(ctx, anchor) not in nline:
                 continue
             key = (id(c), ctx['frame'], ins['pos'].rsplit(':', 1)[0])
             if key in self.asserted_at:
@@ -279,6 +284,25 @@ class InstrMixin:
                 self.oblige('assert', t, st, c.text, ins['pos'], clause=c, fnname=self.cur_name(ctx))
             except Unsupported as e:
                 self.elab_fail('assert-at %r: %s' % (anchor, e), c)
+
+    def callee_label(self, ctx, ins):
+        """name a call can be addressed by in `<call:...>` anchors: the callee's (qualified) name, or the local
+        variable holding the function literal that is called"""
+        c2 = ins.get('call') or {}
+        nm2 = str(c2.get('callee') or c2.get('method') or '')
+        v2 = c2.get('value')
+        if not nm2 and isinstance(v2, str):
+            defs = ctx.setdefault('_defs', None)
+            if defs is None:
+                defs = ctx['_defs'] = {i3['id']: i3 for b3 in ctx['fn']['blocks'] for i3 in b3['instrs'] if 'id' in i3}
+            d = defs.get(v2)
+            if d is not None and d['op'] == 'UnOp' and isinstance(d.get('x'), str):
+                a = defs.get(d['x'])
+                if a is not None and a['op'] == 'Alloc':
+                    nm2 = a.get('name') or ''
+            elif d is not None and d['op'] == 'MakeClosure':
+                nm2 = str(d.get('fn') or '')
+        return nm2
 
     def do_sets_at(self, ctx, ins, st, blk):
         """ghost assignments anchored at a source line: `set-at` runs before the first instruction of that line in the
@@ -292,6 +316,19 @@ class InstrMixin:
                 # on entry to the function (before its first instruction), whatever its first statement is
                 if blk['idx'] == 0 and blk['instrs']:
                     hits = [0]
+            elif atext.startswith('<call:') and atext.endswith('>'):
+                # at every call whose callee's name contains the given text: a function or method by (qualified) name,
+                # a function literal by the local variable that holds it -- independent of how the statement is written
+                want = atext[6:-1]
+                for k2, i2 in enumerate(blk['instrs']):
+                    if i2['op'] in ('Call', 'Defer', 'Go') and want and want in self.callee_label(ctx, i2):
+                        hits.append(k2)
+                if hits:
+                    # every matching call of the block, not only the first
+                    for h_ in hits:
+                        if blk['instrs'][h_] is ins:
+                            hits = [h_]
+                            break
             else:
                 for k2, i2 in enumerate(blk['instrs']):
                     l2 = self.prog.srcline(i2['pos']) if i2.get('pos') else None
